@@ -98,7 +98,11 @@ Apply(acc, e, i) ==
        bat |-> IF acc.b = "ok" /\ bc # "ok" THEN i ELSE acc.bat ]
 
 RECURSIVE Fold(_, _, _)
-Fold(acc, ev, i) == IF i > Len(ev) THEN acc ELSE Fold(Apply(acc, ev[i], i), ev, i + 1)
+\* the IF forces TLC to evaluate the accumulator before recursing (operator arguments are lazy:
+\* without it a history of ~35 events overflows the Java stack)
+Fold(acc, ev, i) == IF i > Len(ev) THEN acc
+                    ELSE LET nxt == Apply(acc, ev[i], i)
+                         IN IF nxt.at >= 0 /\ nxt.S.starts >= 0 THEN Fold(nxt, ev, i + 1) ELSE acc
 
 Verdict(c) == Fold(Acc0, c.events, 1)
 
